@@ -118,7 +118,7 @@ void World::opIO(const Step &s)
     Rng R(s.seed);
     const unsigned nroots = 1 + s.a[1] % 5;
     std::vector<EdgeSlot*> roots;
-    for (unsigned i = 0; i < nroots; i++) roots.push_back(edges[ce[R.below(ce.size())]]);   // repeats allowed
+    for (unsigned i = 0; i < nroots; i++) roots.push_back(edges[pick(ce, uint32_t(R.below(ce.size())))]);   // repeats allowed
     const unsigned transport = s.a[2] % 2;
     desc << "write " << nroots << " roots of " << fn(fi) << " via " << (transport ? "FILE*" : "iostream") << ", read back target " << s.a[3] % 3;
     std::string disk;
@@ -317,7 +317,7 @@ void World::opMisuse(const Step &s)
             return e.forest >= 0 && forests[e.forest].alive && pred(forests[e.forest]);
         });
         if (c.empty()) return nullptr;
-        return edges[c[raw % c.size()]];
+        return edges[pick(c, raw)];
     };
     bool threw = false;
     error::code code = error::code(0);
@@ -405,6 +405,9 @@ void World::opMisuse(const Step &s)
                 apply(MULTIPLY, num, num, num);     // (7+a)^2 ...
                 F.f->createConstant(rangeval(1L), r);
                 apply(PLUS, num, r, num);           // ... +1 > 0
+                // KF-C05-4 (probe plans only): a dividend that is 0 where the
+                // divisor is 0 is short-circuited to 0 without any error
+                if (s.a[5] == 999) { F.f->createConstant(rangeval(0L), num); what = "0 divided by a function that is zero at one point"; }
                 if (s.a[2] & 1) apply(MODULO, num, dv, r);
                 else            apply(DIVIDE, num, dv, r);
                 break;
@@ -455,10 +458,26 @@ void World::opMisuse(const Step &s)
             }
             default: {  // subtracting infinity (EV+)
                 EdgeSlot* A = liveEdge([](const ForRT &F) { return F.kind() == FK_EVP; }, s.a[1]);
-                if (!A) { note(OC_SKIP); return; }
+                if (!A || !A->oracle) { note(OC_SKIP); return; }
                 ForRT &F = forests[A->forest];
                 dd_edge inf(F.f);
                 F.f->createConstant(rangeval(range_special::PLUS_INFINITY, range_type::INTEGER), inf);
+                // The error is raised where a FINITE value meets the infinite
+                // subtrahend.  Where the minuend is +infinity too the library
+                // short-circuits (KF-C05-3, probe plans only): the minuend
+                // must be finite somewhere.
+                bool finite = false;
+                for (const Val &v : A->tab.v) if (!v.inf) finite = true;
+                if (s.a[5] == 999) {
+                    dd_edge inf2(F.f), r2(F.f);
+                    apply(PLUS, inf, inf, inf2);
+                    what = "MINUS of +infinity from +infinity";
+                    accept = { error::SUBTRACT_INFINITY };
+                    f1 = A->forest;
+                    apply(MINUS, inf2, inf, r2);
+                    break;
+                }
+                if (!finite) { note(OC_SKIP); return; }
                 what = "MINUS with an infinite subtrahend";
                 accept = { error::SUBTRACT_INFINITY, error::TYPE_MISMATCH, error::NOT_IMPLEMENTED };
                 f1 = A->forest;
